@@ -274,6 +274,11 @@ func generate(family string, rng *rand.Rand, thorough bool) []plan {
 				}
 			}
 		}
+		// Seq / ToSeq: identity
+		for r := 0; r < 6*mul; r++ {
+			xs := anyInput(rng, rng.Intn(7))
+			add(plan{stage: &Stage{Kind: "seq", Xs: xs}, sched: rnd(0, 0, 4, 0, 0, 0, nil), maxMoves: 12, drain: true, gen: "random"})
+		}
 	case "C06":
 		for rep := 0; rep < mul; rep++ {
 			stages := seqStages(rng)
